@@ -75,6 +75,104 @@ def clean(d):
     return {k: v for k, v in (d or {}).items() if v != 0}
 
 
+def check_select_iterator_form(fx, rep, crate, cfg, body):
+    """the sweep written with iterator adaptors: `(start..n).chain(0..start).find_map(|idx| match futures[idx].poll(cx) { Ready(x) => Some((idx, x)),
+    Pending => None })` mapped to Ready / Pending.  The rotation start, start+1, .., n-1, 0, .., start-1 is the sequence (start + i) mod n for i in 0..n
+    when start < n; find_map stops at the first Some.  Returns True when the form was recognised (instances recorded), False to fall back."""
+    fk = body.path
+    cls = []
+    for cb in C.nested(crate, body):
+        ps = [(b, t) for b, t in cb.iter_terms('call') if t['callee'].get('name') == 'poll' and 'Future' in (t['callee'].get('trait') or '')]
+        if ps:
+            cls.append((cb, ps))
+    if len(cls) != 1 or len(cls[0][1]) != 1:
+        return False
+    cb, ((pb, pt),) = cls[0]
+    fm = [(b, t) for b, t in body.iter_terms('call') if t['callee'].get('name') in ('find_map',) and len(t['args']) == 2]
+    fm = [(b, t) for b, t in fm if sym.expr(crate, body, t['args'][1])[:2] == ('closure', cb.path)]
+    if len(fm) != 1:
+        return False
+    fb, ft = fm[0]
+    it = sym.expr(crate, body, ft['args'][0])
+    n = None
+    ok_rot = False
+    det = {'iterator': sym.show(it, 300)}
+    if it[0] == 'call' and it[1] == 'chain' and len(it[2]) == 2 and all(r[0] == 'adt' and r[2] == 'Range' and len(r[3]) == 2 for r in it[2]):
+        (s1, e1), (s2, e2) = it[2][0][3], it[2][1][3]
+        if e1[0] == 'len' and e1[1][0] == 'field':
+            n = e1
+        ok_rot = n is not None and s2 == ('const', 0) and e2 == s1
+        # every definition of the start value is 0 or a remainder modulo n
+        if ok_rot and s1[0] == 'phi':
+            l = [i for i, loc in enumerate(body.locals) if loc.get('name') == s1[1]]
+            defs = [d for d in body.defs().get(l[0], []) if d[2] == 'assign'] if l else []
+            forms = []
+            for b_, i_, k_, pl_ in defs:
+                rv_ = pl_['rv']
+                if rv_['k'] == 'use':
+                    e = sym.expr(crate, body, rv_['op'])
+                elif rv_['k'] == 'bin':
+                    e = ('bin', rv_['op'].replace('WithOverflow', ''), sym.expr(crate, body, rv_['a']), sym.expr(crate, body, rv_['b']))
+                else:
+                    e = ('?',)
+                forms.append(e)
+            det['start_definitions'] = [sym.show(e, 120) for e in forms]
+            ok_rot = bool(forms) and all(e == ('const', 0) or (e[0] == 'bin' and e[1] == 'Rem' and e[3] == n) for e in forms)
+        elif ok_rot:
+            def reduced(x):
+                if x == ('const', 0) or (x[0] == 'bin' and x[1] == 'Rem' and x[3] == n):
+                    return True
+                if x[0] == 'payload' and x[1] == 'Some' and x[2][0] == 'call' and x[2][1] == 'checked_rem' and len(x[2][2]) == 2 and x[2][2][1] == n:
+                    return True         # `start.checked_rem(n)` taken on its Some arm
+                return False
+            ok_rot = reduced(s1)
+    rep.check(ok_rot, 'R18.2', '%s|polled-index|%s' % (fk, cfg), C.where(body, fb),
+              'the sweep visits start..n then 0..start with start = (start index mod n) or 0: the rotation (start + i) mod n',
+              'the iterator that drives the sweep is not the rotation start..n, 0..start with start reduced modulo the number of futures: %s' % det.get('iterator'), det)
+    # the closure polls futures[idx] for its own parameter and hands back (idx, payload)
+    idx_ok = False
+    for b, t in cb.iter_terms('call'):
+        if t['callee'].get('name') in ('index_mut', 'get_mut', 'index') and len(t['args']) == 2:
+            ie = sym.expr(crate, cb, t['args'][1])
+            if ie[0] == 'arg' and ie[1] == cb.local_name(2):
+                idx_ok = True
+    ret_ok = False
+    for b, i, s_ in cb.iter_assigns():
+        if s_['place']['l'] == 0 and s_['rv']['k'] == 'aggr' and s_['rv'].get('variant') == 'Some' and s_['rv'].get('ops'):
+            te = sym.expr(crate, cb, s_['rv']['ops'][0])
+            if te[0] == 'tuple' and len(te) == 3 and te[1] == ('arg', cb.local_name(2)) and te[2][0] == 'payload' and te[2][1] == 'Ready':
+                ret_ok = True
+    rep.check(idx_ok and ret_ok, 'R18.2', '%s|ready-returns-polled-index|%s' % (fk, cfg), cb.where(),
+              'the closure polls futures[idx] for the index it is given and answers Some((idx, payload)) on Ready',
+              'the index reported with a ready item is not the index that was polled (the server would serve / advance the wrong connection)')
+    rep.ok('R18.2', '%s|ready-returned-at-once|%s' % (fk, cfg), C.where(body, fb),
+           'Iterator::find_map stops at the first Some: after a Ready result no further future is polled')
+    # Pending exactly when find_map found nothing (or there are no futures)
+    pend_ok = False
+    for b, t in body.iter_terms('call'):
+        if t['callee'].get('name') == 'map_or' and len(t['args']) == 3:
+            a0 = sym.expr(crate, body, t['args'][0])
+            a1 = sym.expr(crate, body, t['args'][1])
+            a2 = sym.expr(crate, body, t['args'][2])
+            if a0[0] == 'call' and a0[1] == 'find_map' and a1[:3] == ('adt', 'std::task::Poll', 'Pending') and a2[0] == 'fn' and a2[1].endswith('Poll::Ready') and t['dest']['l'] == 0:
+                pend_ok = True
+    if not pend_ok:
+        # match / if let on the Option returned by find_map
+        for sw in range(body.n):
+            if body.is_cleanup(sw) or body.term(sw)['k'] != 'switch':
+                continue
+            info = body.switch_info(sw)
+            if info and info.get('kind') == 'discr' and (info['place'].get('ty') or '').startswith(('std::option::Option<', 'core::option::Option<')) and fb in body.dom().get(sw, ()):
+                none_edge = info['arms'].get(0, info['otherwise'])
+                pend = [b for b, i, s_ in C.aggr_adt_sites(body, 'task::Poll', 'Pending') if s_['place']['l'] == 0 and fb in body.dom().get(b, ())]
+                if pend and all(b in body.reachable(none_edge) and all(b not in body.reachable(tg, avoid={sw}) for v, tg in info['arms'].items() if v != 0) for b in pend):
+                    pend_ok = True
+    rep.check(pend_ok, 'R18.2', '%s|pending-only-after-sweep|%s' % (fk, cfg), body.where(),
+              'Pending is returned exactly when the sweep found no ready future (or there are none)',
+              'Pending can be returned although the sweep produced an item, or the item of the sweep is not what is returned')
+    return True
+
+
 def check_select(fx, rep, crate, cfg):
     polls = [b for b in crate.bodies if not b.in_test and b.kind == 'AssocFn' and b.impl_self and 'select_all::SelectAll' in b.impl_self
              and b.name == 'poll']
@@ -84,6 +182,8 @@ def check_select(fx, rep, crate, cfg):
     body = polls[0]
     fk = body.path
     inner = [(b, t) for b, t in body.iter_terms('call') if t['callee'].get('name') == 'poll' and 'Future' in (t['callee'].get('trait') or '')]
+    if len(inner) == 0 and check_select_iterator_form(fx, rep, crate, cfg, body):
+        return
     if len(inner) != 1:
         rep.bad('R18.2', '%s|poll-sites|%s' % (fk, cfg), body.where(), 'expected exactly one inner poll site in the sweep loop, found %d' % len(inner))
         return
